@@ -349,29 +349,15 @@ pub(crate) fn extract_title(line: &str) -> Option<(String, String)> {
 /// On the first line ending in foo, this function returns the backticks and
 /// the language. On all other lines it returns None.
 pub(crate) fn extract_code_block_start(line: &str) -> Option<(&str, &str, &str)> {
-    if line == "```" {
-        return Some((line, "", ""));
+    let fence_length = line.len() - line.trim_start_matches('`').len();
+    if fence_length < 3 {
+        return None;
     }
-
-    let mut language_start = None;
-    for (index, ch) in line.chars().enumerate() {
-        if let Some(language_start) = language_start {
-            if ch == '{' {
-                return Some((
-                    &line[0..language_start],
-                    (line[language_start..index].trim_end()),
-                    &line[index..],
-                ));
-            }
-        } else if ch != '`' {
-            if index < 2 {
-                return None;
-            }
-            language_start = Some(index);
-        }
+    let (backticks, rest) = line.split_at(fence_length);
+    match rest.find('{') {
+        Some(index) if index > 0 => Some((backticks, rest[..index].trim_end(), &rest[index..])),
+        _ => Some((backticks, rest, "")),
     }
-
-    language_start.map(|index| (&line[0..index], &line[index..], ""))
 }
 
 pub(crate) trait NumberedLines {
